@@ -89,3 +89,10 @@ pub fn thread_tag() -> i64 {
 pub use crate::util::rust_util::rev_group::verif_groups;
 // C25 (family "header"): side-metadata sanity predicate and spec-set check.
 pub use crate::util::metadata::side_metadata::verif_sanity_hooks;
+// C36 (family "policy"): the large-object treadmill (all operations are pub; hooks verif_sets / verif_enumerate).
+pub use crate::util::treadmill::TreadMill;
+// C37 (family "policy"): Compressor forwarding metadata on a harness-mapped region.
+pub use crate::policy::compressor::forwarding::verif_hooks as compressor_hooks;
+pub use crate::policy::compressor::forwarding::ForwardingMetadata;
+// C38 (family "policy"): stand-alone MemBalancerTrigger / FixedHeapSizeTrigger drivers.
+pub use crate::util::heap::gc_trigger::verif_hooks as gc_trigger_hooks;
